@@ -283,6 +283,37 @@ def run_check(prop, tier, repo=REPO, write_evidence=True, quiet=False):
         rep.anchor_missing("ANCHOR", "rule crashed at %s:%s (%s: %s) — an anchor the rule relies on is missing on this tree" % (
             os.path.basename(tb.filename), tb.lineno, type(e).__name__, str(e)[:120]))
     known, _fixed = load_known()
+    # second chance: a rule that does not find its idiom may be looking at code that was moved into a private helper. Inlining crate-local
+    # callees is semantics-preserving, so an obligation discharged on the inlined bodies is discharged; one that is not stays a violation.
+    # Only for rules whose condition is about what the code computes on its paths (not about WHICH function does something — writer
+    # inventories, call-graph cycles, reviewed panic sites — nor for the variant walks, whose coordinates are tied to the parameters).
+    INLINE_RULES = ("C10.UNDO", "C01.ESC", "C13.CALLEE", "C13.CHK", "C07.REF.b", "C11.EDGES", "C06.PATCH", "C06.JT", "C17.PRE", "C14.ARITH", "C14.CAST", "C14.ZERO",
+                    "C07.UTF8", "C12.SETSRC", "C08.PEEK", "C03.ITER", "C03.JUMP", "C02.SC", "C04.VM", "C04.BLOCK", "C20.URL", "C20.B64", "C20.JSON", "C16.ORDUSE")
+    if any((not i.ok) and (prop, i.key) not in known and i.rule in INLINE_RULES for i in rep.instances) and not os.environ.get("TV_NO_INLINE"):
+        ctx2 = Ctx(prop, tier, repo)
+        ctx2.inline = True
+        rep2 = engine.Report(prop)
+        try:
+            mod.run(ctx2, rep2)
+        except Exception:
+            pass
+        ok2 = {}
+        for i2 in rep2.instances:
+            ok2.setdefault(i2.key, []).append(i2.ok)
+        floors2 = {(r_, l_): c_ for r_, l_, c_, f_ in rep2.floors}
+        for inst in rep.instances:
+            if inst.ok or (prop, inst.key) in known or inst.rule not in INLINE_RULES:
+                continue
+            if inst.key in ok2 and all(ok2[inst.key]):
+                inst.ok = True
+                inst.what = "holds after inlining crate-local helpers into the anchored function (the idiom lives in a helper): " + inst.what.split(" — VIOLATED")[0]
+            elif ":floor:" in inst.key:
+                lab = inst.key.split(":floor:", 1)[1]
+                for (r_, l_), c_ in floors2.items():
+                    fl = [f_ for r3, l3, c3, f_ in rep2.floors if (r3, l3) == (r_, l_)]
+                    if l_ == lab and fl and c_ >= fl[0]:
+                        inst.ok = True
+                        inst.what = "floor met after inlining crate-local helpers: " + inst.what
     viol, kf = [], []
     for inst in rep.instances:
         if inst.ok:
@@ -395,11 +426,20 @@ class Ctx:
     def tera_configs(self):
         return THOROUGH_TERA if self.tier == "thorough" else QUICK_TERA
 
+    inline = False
+
     def crate(self, config):
         if config not in self.configs_used:
             self.configs_used.append(config)
         c = load_crate(config, self.repo)
         self._crates[config] = c
+        if self.inline:
+            ic = self._inl.get(config) if hasattr(self, "_inl") else None
+            if ic is None:
+                if not hasattr(self, "_inl"):
+                    self._inl = {}
+                ic = self._inl[config] = engine.InlinedCrate(c)
+            return ic
         return c
 
     def prefetch(self, configs):
